@@ -28,7 +28,15 @@ type verifRedis struct {
 	addr string
 }
 
-func (w verifWrapper) Dial(a, p string, _ ...redis.DialOption) (redis.Conn, error) {
+// VerifRealProbe: INFO probes of newly discovered nodes go through the REAL redis client (core/pkg/redis: dial, AUTH, INFO,
+// reply parsing) over an in-memory connection to the scripted node; only the harness's own barrier addresses (10.255.x)
+// keep the stub. Off: the stub answers everything (histories that need per-message INFO answers set it themselves).
+var VerifRealProbe = true
+
+func (w verifWrapper) Dial(a, p string, opts ...redis.DialOption) (redis.Conn, error) {
+	if VerifRealProbe && !strings.HasPrefix(a, "10.255.") {
+		return redis.Dial(a, p, opts...)
+	}
 	if w.fn != nil {
 		if _, err := w.fn("dial:" + a); err != nil {
 			return nil, err
